@@ -1,0 +1,83 @@
+//go:build verif
+
+// Contracts for package imports, checked by /verif (govc). Comment-only file.
+package imports
+
+// Data-structure invariant of the alias table: aliases are non-empty and contain no "/" (they match
+// regex.MetaImportAlias, validated before the compile steps run; see lang_MetaImportAlias).
+//@ spec aliasesWellFormed(prefixes map[string]string) bool =
+//@   forall a string :: a in prefixes ==> a != "" && !contains(a, "/")
+
+// firstSegment(p): the path up to its first "/" (the whole path if there is none).
+//@ spec firstSegment(p string) string = contains(p, "/") ? substr(p, 0, indexOf(p, "/")) : p
+
+// An alias without "/" matches a path on whole segments exactly when it is the path's first segment.
+//@ lemma alias_is_first_segment(a string, p string)
+//@   property C14
+//@   requires !contains(a, "/")
+//@   ensures [iff] (p == a || hasPrefix(p, a + "/")) <==> (a == firstSegment(p))
+
+// C14: a reference resolves through the alias table on whole path segments only: the alias that applies is
+// the first path segment (by the lemma above this is the only alias that can match), and it is replaced by its path.
+//@ func (*imports).decorateImport pure
+//@   property C14 C08
+//@   uses alias_is_first_segment
+//@   requires [alias_table_invariant] aliasesWellFormed(i.prefixes)
+//@   ensures [segment_match] (firstSegment(imp) in i.prefixes) ==>
+//@             result == i.prefixes[firstSegment(imp)] + substr(imp, len(firstSegment(imp)), len(imp) - len(firstSegment(imp)))
+//@   ensures [no_match] !(firstSegment(imp) in i.prefixes) ==> result == imp
+//@   loop 1
+//@     invariant [none_so_far] forall a string :: a in visited ==> a != firstSegment(imp)
+
+//@ func (*imports).RegisterPrefixAlias
+//@   property C14
+//@   requires i.prefixes != nil
+//@   modifies i.prefixes
+//@   ensures [rejects_duplicates] (result != nil) <==> (alias in old(i.prefixes))
+//@   ensures [registered] result == nil ==> (alias in i.prefixes) && i.prefixes[alias] == path
+//@   ensures [others_kept] forall a string :: a != alias ==> ((a in i.prefixes) <==> (a in old(i.prefixes))) && i.prefixes[a] == old(i.prefixes)[a]
+//@   ensures [unchanged_on_error] result != nil ==> i.prefixes == old(i.prefixes)
+
+// local name given to the c-th distinct package: "i" + hex(c) + "_" + sanitised last path element
+//@ spec localName(c int, p string) string = "i" + hexStr(c) + "_" + sanitizeIdent(lastSegment(p))
+
+// Data-structure invariant of the import table: every used (decorated) path has the local name of some
+// counter value below the current one, and different paths have different local names.
+//@ spec importsWellFormed(m map[string]string, counter int) bool =
+//@      counter >= 0
+//@   && (forall p string :: p in m ==> (exists c int :: 0 <= c && c < counter && m[p] == localName(c, p)))
+//@   && (forall p string, q string :: p in m && q in m && p != q ==> m[p] != m[q])
+
+//@ func (*imports).Alias
+//@   property C14
+//@   requires i.imports != nil
+//@   requires [alias_table_invariant] aliasesWellFormed(i.prefixes)
+//@   requires [import_table_invariant] importsWellFormed(i.imports, i.counter)
+//@   requires [counter_bounded] i.counter < 9223372036854775807
+//@   modifies i.imports, i.counter
+//@   ensures [import_table_invariant_kept] importsWellFormed(i.imports, i.counter)
+//@   ensures [same_package_same_name] old(i.decorateImport(import_)) in old(i.imports) ==>
+//@             result == old(i.imports)[old(i.decorateImport(import_))] && i.imports == old(i.imports) && i.counter == old(i.counter)
+//@   ensures [new_package_new_name] !(old(i.decorateImport(import_)) in old(i.imports)) ==>
+//@             result == localName(old(i.counter), old(i.decorateImport(import_))) && i.counter == old(i.counter) + 1
+//@          && (old(i.decorateImport(import_)) in i.imports) && i.imports[old(i.decorateImport(import_))] == result
+//@   ensures [others_kept] forall p string :: p in old(i.imports) ==> (p in i.imports) && i.imports[p] == old(i.imports)[p]
+//@   ensures [only_one_added] forall p string :: p in i.imports ==> (p in old(i.imports) || p == old(i.decorateImport(import_)))
+
+// Imports(): every used package exactly once, with its local name, in strictly increasing order of the path
+// (hence a function of the table's contents alone, independent of map iteration order; C08).
+//@ func (*imports).Imports
+//@   property C14 C08
+//@   ensures [sound] forall k int :: 0 <= k && k < len(result) ==> (result[k].Path in i.imports) && result[k].Alias == i.imports[result[k].Path]
+//@   ensures [complete] forall p string :: p in i.imports ==> (exists k int :: 0 <= k && k < len(result) && result[k].Path == p)
+//@   ensures [strictly_increasing] forall a int, b int :: 0 <= a && a < b && b < len(result) ==> result[a].Path < result[b].Path
+//@   loop 1
+//@     invariant [sound] forall k int :: 0 <= k && k < len(imps) ==> (imps[k].Path in visited) && imps[k].Alias == i.imports[imps[k].Path]
+//@     invariant [complete] forall p string :: p in visited ==> (exists k int :: 0 <= k && k < len(imps) && imps[k].Path == p)
+//@     invariant [distinct] forall a int, b int :: 0 <= a && a < b && b < len(imps) ==> imps[a].Path != imps[b].Path
+
+//@ func New
+//@   property C14
+//@   ensures [nonnil] result != nil && result.imports != nil && result.prefixes != nil
+//@   ensures [empty] empty(result.imports) && empty(result.prefixes) && result.counter == 0
+//@   ensures [invariants] importsWellFormed(result.imports, result.counter) && aliasesWellFormed(result.prefixes)
